@@ -139,7 +139,10 @@ def _close(a, b, rtol=1e-10, atol=1e-13):
     if a.shape != b.shape:
         return False
     both_inf = np.isinf(a) & np.isinf(b) & (np.sign(a) == np.sign(b))
-    ok = np.abs(a - b) <= atol + rtol * np.maximum(np.abs(a), np.abs(b))
+    with np.errstate(invalid="ignore"):
+        ok = np.abs(a - b) <= atol + rtol * np.maximum(np.abs(a), np.abs(b))
+    # an infinite value on one side only is never 'close' (the tolerance would be infinite too)
+    ok = ok & np.isfinite(a) & np.isfinite(b)
     return bool(np.all(ok | both_inf))
 
 
@@ -209,7 +212,7 @@ def execute(case):
                 elif have("p") and not disc:
                     # the round trip is only well conditioned away from the upper tail (1 - p is formed in floating
                     # point): keep the points whose reference cdf is at most 0.999
-                    keep = [i_ for i_, x_ in enumerate(xs) if float(fz.cdf(x_)) <= 0.999]
+                    keep = [i_ for i_, x_ in enumerate(xs) if 1e-290 <= float(fz.cdf(x_)) <= 0.999]      # and no underflow of p
                     xs_rt = [xs[i_] for i_ in keep]
                     back = getattr(ur, "q" + fam)(call(ur, "p", fam, np.array(xs_rt, float), par), **par) if xs_rt else []
                     if xs_rt and not _close(back, xs_rt, rtol=1e-6, atol=1e-9):
